@@ -357,6 +357,8 @@ pub enum E {
     Case(Vec<(E, E)>, Option<Box<E>>),
     /// tuple comparison `(a, b) op (c, d)`
     TupleCmp(Vec<E>, Op, Vec<E>),
+    /// `(c1, c2) IN ((v, v), ..)` through `in_tuples` (bound value tuples)
+    InTuples(Vec<E>, Vec<(i64, i64)>),
     Exists,
     ScalarSub,
     /// x op ANY/SOME/ALL (subquery); 0 = ANY, 1 = SOME, 2 = ALL
@@ -598,6 +600,14 @@ impl E {
                 let rt: SimpleExpr = Expr::tuple(r.iter().map(|e| e.build(d)).collect::<Vec<_>>()).into();
                 lt.binary(op.to_binoper(), rt)
             }
+            E::InTuples(cols, rows) => {
+                let t = Expr::tuple(cols.iter().map(|e| e.build(d)).collect::<Vec<_>>());
+                if self.entry() % 2 == 0 {
+                    t.in_tuples(rows.clone())
+                } else {
+                    SimpleExpr::from(t).in_tuples(rows.clone())
+                }
+            }
             E::Exists => Expr::exists(subquery()),
             E::ScalarSub => SimpleExpr::SubQuery(None, Box::new(subquery().into_sub_query_statement())),
             E::Quantified(x, op, q) => {
@@ -711,6 +721,10 @@ impl E {
                 Box::new(PT::Tuple(l.iter().map(|e| e.expect(d, params)).collect())),
                 Box::new(PT::Tuple(r.iter().map(|e| e.expect(d, params)).collect())),
             ),
+            E::InTuples(cols, rows) => {
+                let cell = |v: i64| if params { PT::Param(None) } else { PT::Num(v.to_string()) };
+                PT::In(false, Box::new(PT::Tuple(cols.iter().map(|e| e.expect(d, params)).collect())), rows.iter().map(|(x, y)| PT::Tuple(vec![cell(*x), cell(*y)])).collect())
+            }
             E::Exists => PT::Sub(Some("EXISTS".into()), sub_text(d, params)),
             E::ScalarSub => PT::Sub(None, sub_text(d, params)),
             E::Quantified(x, op, q) => {
@@ -814,6 +828,7 @@ impl E {
                 let ri: Option<Vec<String>> = r.iter().map(|e| e.ref_sqlite()).collect();
                 format!("(({}) {} ({}))", li?.join(", "), op.text(), ri?.join(", "))
             }
+            E::InTuples(..) => return None,
             E::Exists => "(EXISTS (SELECT \"p\" FROM \"tt\" WHERE \"id\" < 5))".into(),
             E::ScalarSub => "(SELECT \"p\" FROM \"tt\" WHERE \"id\" < 5)".into(),
             E::Quantified(..) => return None,
@@ -866,6 +881,7 @@ impl E {
                 E::TupleCmp(l2, *op, r2)
             }
             E::Quantified(x, op, q) => E::Quantified(Box::new(g(x)), *op, *q),
+            E::InTuples(cols, rows) => E::InTuples(cols.iter().map(|e| g(e)).collect(), rows.clone()),
             E::CustomTmpl(x, y) => {
                 let x2 = g(x);
                 let y2 = g(y);
@@ -890,6 +906,7 @@ impl E {
             E::Func(_, a) => a.iter().collect(),
             E::Case(w, e) => w.iter().flat_map(|(a, b)| [a, b]).chain(e.iter().map(|b| &**b)).collect(),
             E::TupleCmp(l, _, r) => l.iter().chain(r.iter()).collect(),
+            E::InTuples(cols, _) => cols.iter().collect(),
             E::Quantified(x, _, _) => vec![x],
             E::CustomTmpl(x, y) => vec![x, y],
             _ => vec![],
@@ -898,7 +915,7 @@ impl E {
 
     /// is this node an operator node (for the "operator under operator" non-triviality rule)
     pub fn is_operator(&self) -> bool {
-        matches!(self, E::Not(_) | E::Bin(..) | E::Between { .. } | E::LikePat { .. } | E::In { .. } | E::InSub { .. } | E::TupleCmp(..) | E::Quantified(..) | E::AsEnum(_))
+        matches!(self, E::Not(_) | E::Bin(..) | E::Between { .. } | E::LikePat { .. } | E::In { .. } | E::InSub { .. } | E::TupleCmp(..) | E::InTuples(..) | E::Quantified(..) | E::AsEnum(_))
     }
 
     pub fn kind(&self) -> String {
@@ -915,6 +932,7 @@ impl E {
             E::Cond { .. } => "cond-group".into(),
             E::Case(..) => "CASE".into(),
             E::TupleCmp(..) => "tuple-cmp".into(),
+            E::InTuples(..) => "IN-TUPLES".into(),
             E::Quantified(..) => "quantified".into(),
             E::CustomTmpl(..) | E::CustomText => "custom".into(),
             E::Exists | E::ScalarSub => "subquery".into(),
@@ -1022,6 +1040,10 @@ pub fn expr(d: Dialect, depth: u32, engine: bool) -> BoxedStrategy<E> {
                 (proptest::collection::vec(inner.clone(), 2..3), proptest::sample::select(vec![Op::Eq, Op::Ne, Op::Lt]), proptest::collection::vec(inner.clone(), 2..3))
                     .prop_map(|(l, op, r)| E::TupleCmp(l, op, r))
                     .boxed(),
+            ));
+            choices.push((
+                1,
+                (proptest::collection::vec(inner.clone(), 2..3), proptest::collection::vec((-2i64..6, -2i64..6), 1..4)).prop_map(|(cols, rows)| E::InTuples(cols, rows)).boxed(),
             ));
             if d != Dialect::Sqlite {
                 choices.push((
